@@ -138,6 +138,11 @@ structure SliceEntry where
 /-- ONNX Slice: every listed axis is sliced independently (axes are distinct in every plan
 the front ends emit; for a repeated axis the first entry is used, cf. spec "behaviour is
 undefined if an axis is repeated"). A zero step is a runtime error. -/
+def lookupSlice (entries : List SliceEntry) (k : Nat) (srcs : List Nat) : List Nat :=
+  match entries.find? (fun e => e.axis == k) with
+  | some e => onnxSliceList srcs e.start e.stop e.step
+  | none => srcs
+
 def opSlice (entries : List SliceEntry) (v : View) : Except Err View :=
   if entries.any (fun e => e.step == 0) then .error .valueError
   else if entries.any (fun e => decide (e.axis ≥ v.rank)) then .error .indexError
@@ -146,11 +151,14 @@ def opSlice (entries : List SliceEntry) (v : View) : Except Err View :=
     let rec go (k : Nat) : View → View
       | [] => []
       | .drop s :: rest => .drop s :: go k rest
-      | .pick srcs :: rest =>
-        (match entries.find? (fun e => e.axis == k) with
-         | some e => .pick (onnxSliceList srcs e.start e.stop e.step)
-         | none => .pick srcs) :: go (k + 1) rest
+      | .pick srcs :: rest => .pick (lookupSlice entries k srcs) :: go (k + 1) rest
     .ok (go 0 v)
+
+/-- The single selected position of an axis that is being squeezed (extent must be 1). -/
+def single? (srcs : List Nat) : Except Err Nat :=
+  match srcs with
+  | [s] => .ok s
+  | _ => .error .indexError
 
 /-- ONNX Squeeze with explicit axes: every listed axis must have extent 1. -/
 def opSqueeze (axes : List Nat) (v : View) : Except Err View :=
@@ -160,10 +168,10 @@ def opSqueeze (axes : List Nat) (v : View) : Except Err View :=
       | [] => .ok []
       | .drop s :: rest => do let r ← go k rest; pure (.drop s :: r)
       | .pick srcs :: rest =>
-        if axes.contains k then
-          match srcs with
-          | [s] => do let r ← go (k + 1) rest; pure (.drop s :: r)
-          | _ => .error .indexError
+        if axes.contains k then do
+          let s ← single? srcs
+          let r ← go (k + 1) rest
+          pure (.drop s :: r)
         else do let r ← go (k + 1) rest; pure (.pick srcs :: r)
     go 0 v
 
@@ -243,19 +251,20 @@ def needsTranspose (comps : List Comp) : Bool :=
     | _ => false
   | _, _ => false
 
+/-- Apply a per-axis function to the leading axes (one per component); trailing axes are kept. -/
+def axiswise (f : Comp → List Nat → Except Err AxisMap) : List Comp → List Nat → Except Err View
+  | [], ds => .ok (View.init ds)
+  | _ :: _, [] => .error .indexError
+  | c :: cs, d :: ds => do
+    let a ← f c (List.range d)
+    let r ← axiswise f cs ds
+    pure (a :: r)
+
 def numpyIndex (comps : List Comp) (shape : List Nat) : Except Err View :=
   if comps.length > shape.length then .error .indexError
   else if (comps.filter Comp.isVec).length > 1 then .error .unmodelled
   else if needsTranspose comps then .error .unmodelled
-  else
-    let rec go : List Comp → List Nat → Except Err View
-      | [], ds => .ok (View.init ds)
-      | _ :: _, [] => .error .indexError
-      | c :: cs, d :: ds => do
-        let a ← numpyAxis c (List.range d)
-        let r ← go cs ds
-        pure (a :: r)
-    go comps shape
+  else axiswise numpyAxis comps shape
 
 /-! ### Plans -/
 
@@ -312,37 +321,44 @@ def gatherOp (axis : Nat) : Comp → Option PlanOp
   | .tVec is => some (.gatherVec axis is)
   | _ => Option.none
 
+/-- What the Slice path registers for a component at axis `j`: a (non-trivial) slice gives
+`translate_slice`'s entry, a Python int `i` gives `i:i+1:1`. -/
+def entryOf (c : Comp) (j : Nat) : Option SliceEntry :=
+  match c with
+  | .slice lo hi st =>
+    if lo = .none ∧ hi = .none ∧ st = .none then Option.none
+    else convSliceEntry j lo hi st
+  | .int i => some ⟨j, i, i + 1, 1⟩
+  | _ => Option.none
+
+def slicedOf (comps : List Comp) : List (Comp × Nat) := comps.zipIdx.filter (fun p => p.1.kind == .sliced)
+def scalarsOf (comps : List Comp) : List (Comp × Nat) := comps.zipIdx.filter (fun p => p.1.kind == .scalar)
+def nonScalarsOf (comps : List Comp) : List (Comp × Nat) := comps.zipIdx.filter (fun p => p.1.kind == .nonScalar)
+
+/-- "We emit a Slice operation if we have any indices like 1:5:2 or if the number of scalar
+indices (like 2) is more than 1." -/
+def useSlice (comps : List Comp) : Bool :=
+  !(slicedOf comps).isEmpty || decide ((scalarsOf comps).length > 1)
+
+/-- Entries in the code's order: sliced components first, then the scalar ones. -/
+def sliceEntriesOf (comps : List Comp) : List (Option SliceEntry) :=
+  (slicedOf comps ++ scalarsOf comps).map (fun p => entryOf p.1 p.2)
+
 /-- `Converter._translate_subscript_expr`. -/
 def planGraph (comps : List Comp) : Except Err Plan :=
-  let idx := comps.zipIdx
-  let sliced := idx.filter (fun p => p.1.kind == .sliced)
-  let scalars := idx.filter (fun p => p.1.kind == .scalar)
-  let nonScalars := idx.filter (fun p => p.1.kind == .nonScalar)
   -- `A[:]`, `A[:, :]`: the code calls `_emit1([target], "Identity", [var_name])` with the *name*
   -- (a `str`) where a value is required; decoration fails with AttributeError — a refusal.
-  if sliced.isEmpty && scalars.isEmpty && nonScalars.isEmpty then .error .refused
-  else
-    let useSlice := !sliced.isEmpty || scalars.length > 1
-    let sliceEntries : List (Option SliceEntry) :=
-      if useSlice then
-        (sliced.map (fun p => match p.1 with
-            | .slice lo hi st => convSliceEntry p.2 lo hi st
-            | _ => Option.none))
-        ++ (scalars.map (fun p => match p.1 with
-            | .int i => some ⟨p.2, i, i + 1, 1⟩
-            | _ => Option.none))
-      else []
-    if sliceEntries.any Option.isNone then .error .refused
+  if (slicedOf comps).isEmpty && (scalarsOf comps).isEmpty && (nonScalarsOf comps).isEmpty then
+    .error .refused
+  else if useSlice comps then
+    if (sliceEntriesOf comps).any Option.isNone then .error .refused
     else
-      let entries := sliceEntries.filterMap id
-      let squeezed := if useSlice then scalars.map (·.2) else []
-      let pre : Plan :=
-        if useSlice then
-          [.slice entries] ++ (if squeezed.isEmpty then [] else [.squeeze squeezed])
-        else []
-      let gathers := (nonScalars ++ (if useSlice then [] else scalars)).filterMap
-        (fun p => gatherOp p.2 p.1)
-      .ok (pre ++ gathers)
+      let squeezed := (scalarsOf comps).map (·.2)
+      .ok ([PlanOp.slice ((sliceEntriesOf comps).filterMap id)]
+            ++ (if squeezed.isEmpty then [] else [PlanOp.squeeze squeezed])
+            ++ (nonScalarsOf comps).filterMap (fun p => gatherOp p.2 p.1))
+  else
+    .ok ((nonScalarsOf comps ++ scalarsOf comps).filterMap (fun p => gatherOp p.2 p.1))
 
 /-- `Tensor.__getitem__` for a tensor of the given shape.  Python ints are promoted to rank-0
 tensors first, so `int` and `tScalar` are the same thing here. -/
@@ -385,6 +401,8 @@ def graphAxisSlicePath (c : Comp) (srcs : List Nat) : Except Err AxisMap :=
   match c with
   | .full => .ok (.pick srcs)
   | .slice lo hi st =>
+    if lo = .none ∧ hi = .none ∧ st = .none then .ok (.pick srcs)  -- "::" is a no-op (kind `skip`)
+    else
     (match st with
      | .dyn _ => .error .refused
      | _ =>
@@ -392,10 +410,9 @@ def graphAxisSlicePath (c : Comp) (srcs : List Nat) : Except Err AxisMap :=
        if step == 0 then .error .valueError
        else .ok (.pick (onnxSliceList srcs (convBounds lo.val? hi.val? step).1
                           (convBounds lo.val? hi.val? step).2 step)))
-  | .int i =>
-    (match onnxSliceList srcs i (i + 1) 1 with
-     | [s] => .ok (.drop s)
-     | _ => .error .indexError)
+  | .int i => do
+    let s ← single? (onnxSliceList srcs i (i + 1) 1)
+    pure (.drop s)
   | _ => .error .refused
 
 /-- Whole pipelines: `graphIndex` / `eagerIndex` give the view the front end computes. -/
